@@ -50,6 +50,8 @@ THEOREMS = {
     "C20_model_is_source_mse": "the translation of ModelEvaluation.mse (through the translated properties predictions / observations: `((P - o[:, None]) ** 2).mean()`), regenerated from /repo's models/main.py on this run (Generated/SrcMetrics.v), equals the model ev_mse for every evaluation object the constructor builds",
     "C20_model_is_source_mse_variance": "the translation of ModelEvaluation.mse_variance (`np.var(((P - o[:, None]) ** 2).mean(axis=1))`) equals ev_mse_variance for every constructed evaluation",
     "C20_model_is_source_inter_chain_mse_variance": "the translation of ModelEvaluation.inter_chain_mse_variance (the loop over np.unique(chain_ids), the mask chain_ids == chain_id, the column selection P[:, mask], the per-chain mean, the append, np.var(np.array(mses))) equals ev_inter_chain for every constructed evaluation",
+    "C20_model_is_source_init": "the translation of ModelEvaluation.__init__ (four dtype guards - true of the arrays the wire carries -, the four shape checks with their raises, the four attribute stores) equals the model constructor mk_eval, whatever the fresh instance held; so `mk_eval ... = Ok e` in the other links means: e is what the translated constructor returns",
+    "C20_model_is_source_mean_predictions": "the translation of the property ModelEvaluation.mean_predictions (`self.predictions.mean(axis=1)`) equals ev_mean_predictions for every constructed evaluation",
     "C20_model_is_source_predict_viability_avg": "the translation of the whole function models/main.py predict_viability_avg (zeros, the range loop with get_theta / predict_viability, the NaN raise, result = result + sub_result, result / n_thetas), thetas seen as the list of their prediction vectors, equals: ValueError if a prediction has another length than the screen, else the model predict_avg (NaN for no theta on a non-empty screen)",
     "C20_model_is_source_calculate_mse": "the translation of the whole function retrospective.calculate_mse (call of the translated predict_viability_avg, np.mean((preds - observations) ** 2)) equals the model calculate_mse for all inputs",
     "C20_model_is_source_combination_count": "the translation of models/main.py combination_count (math.factorial raising on a negative argument, //) equals the model combination_count on naturals",
@@ -124,7 +126,10 @@ EXPLANATION = ("Model: Model/Metrics.v, Model/Synergy.v, Model/Corr.v; definitio
                "nowhere on exact rationals, m.any(); `a + b` / `a - b` on equal-length vectors (else Err); `v / n` entrywise, n = 0: NaN "
                "for zero entries (inf, unmodelled tag 96, for others - proved not to occur); `x ** 2`; np.mean (NaN when empty); "
                "screen.observations; Screen.size = len(observations) at the call of predict_viability_avg.  "
-               "Not linked (left to the correspondence): correlation_matrix, mean_predictions, save_h5 / load_h5, the other predict_* helpers.")
+               "mean_predictions is linked like mse (C20_EV_MEAN_PREDICTIONS).  "
+               "ModelEvaluation.__init__ is linked to mk_eval (C20_EV_INIT; trusted there: the four np.issubdtype guards are true, len(predictions.shape) = 2 "
+               "iff every row has shape[1] entries, a.shape[0] = length).  "
+               "Not linked (left to the correspondence): correlation_matrix, ModelEvaluation.save_h5 / load_h5, the other predict_* helpers.")
 
 TAGS = {1: "ValueError", 4: "IndexError", 5: "KeyError"}
 NAN = "nan"
